@@ -222,7 +222,7 @@ def run(tier, seed, replay=None):
     from src import graph_utils as gu
 
     proof_ok = C.proof_part(rep, "Graph/Properties_C19.v",
-                            ["Graph/Model.vo", "Graph/Spec.vo", "Graph/Corr.vo", "Graph/Proofs.vo"],
+                            ["Graph/Model.vo", "Graph/Spec.vo", "Graph/Corr.vo", "Graph/Proofs.vo", "Graph/ProofsPaths.vo", "Graph/ProofsDfs.vo"],
                             ["Graph"])
 
     rng = random.Random(C.sub_seed(seed, "c19"))
